@@ -28,9 +28,13 @@ WIDTHS = [0, 1, 2, 3]
 NSH = 32
 
 
+SPECIAL = [([2_000_000_000], [2_000_000_003]), ([-2_000_000_003], [-2_000_000_000]), ([1_000_000, -5], [1_000_002, -3]),
+           ([-40000, 30000, 7], [-39998, 30001, 7]), ([0, 0, 0, 0, 0], [1, 0, 2, 0, 1]), ([5], [5]), ([-1, -1, -1, -1, -1, -1], [0, 0, 0, 0, 0, 0])]
+
+
 def gen_cases(seed, tier):
     dims = [1, 2, 3] if tier == "quick" else [1, 2, 3, 4]
-    cases = []
+    cases = [dict(dim=0, shard=0, nshards=1, devices=1)]      # boxes with large offsets / 5-6 dimensions
     for d in dims:
         nsh = 1 if d == 1 else NSH
         for sh in range(nsh):
@@ -48,9 +52,12 @@ def run_case(case):
     d = case["dim"]
     per_dim = [(m, w) for m in MINS for w in WIDTHS]
     n_box = n_nontriv = n_vec = 0
-    for k, combo in enumerate(itertools.product(per_dim, repeat=d)):
+    boxes = (itertools.product(per_dim, repeat=d) if d > 0 else
+             [tuple((lo, hi - lo) for lo, hi in zip(a, b)) for a, b in SPECIAL])
+    for k, combo in enumerate(boxes):
         if k % case["nshards"] != case["shard"]:
             continue
+        d = len(combo)
         mins = np.array([c[0] for c in combo], dtype=np.int64)
         maxs = mins + np.array([c[1] for c in combo], dtype=np.int64)
         where = f"create_range_space(mins={mins.tolist()}, maxs={maxs.tolist()})"
@@ -91,15 +98,27 @@ def run_case(case):
             return dict(status="violation", kind="outside",
                         detail=f"{where}: index_fn({infl[i].tolist()}) = {int(oi[i])}, nearest box point "
                                f"{clipped[i].tolist()} is row {int(exp[i])}")
-        if k % 50 == 0:  # eager single-vector path too
-            j = int(k // 50) % len(ref)
-            if int(index_fn(space[j])) != j:
-                return dict(status="violation", kind="index", detail=f"{where}: eager index_fn(row {j}) != {j}")
+        if k % 10 == 0:
+            # other call styles and input types: eager on a jax row, a Python list, numpy int64; under jit
+            j = int(k // 10) % len(ref)
+            o = int(k // 10) % len(infl)
+            for label, fn, conv in (("eager/jax", index_fn, lambda v: jnp.asarray(v, dtype=jnp.int32)),
+                                    ("eager/list", index_fn, lambda v: [int(x) for x in v]),
+                                    ("eager/int64", index_fn, lambda v: np.asarray(v, dtype=np.int64)),
+                                    ("jit", jax.jit(index_fn), lambda v: jnp.asarray(v, dtype=jnp.int32))):
+                try:
+                    a, b = int(fn(conv(ref[j]))), int(fn(conv(infl[o])))
+                except Exception as e:  # noqa: BLE001
+                    return dict(status="violation", kind="target-exception",
+                                detail=f"{where}: index_fn [{label}] raised {type(e).__name__}: {str(e)[:150]}")
+                if a != j or b != int(exp[o]):
+                    return dict(status="violation", kind="index",
+                                detail=f"{where}: index_fn [{label}]({ref[j].tolist()}) = {a} (row {j}); ({infl[o].tolist()}) = {b} (nearest row {int(exp[o])})")
         n_box += 1
         n_vec += len(infl) + len(ref)
         if (mins != 0).any() or (maxs == mins).any():
             n_nontriv += 1
-    return dict(status="ok", n_obs=n_box, distinct=n_nontriv, vectors=n_vec, cls=[f"dim{d}", case["shard"]])
+    return dict(status="ok", n_obs=n_box, distinct=n_nontriv, vectors=n_vec, cls=[f"dim{case['dim']}", case["shard"]])
 
 
 def aggregate(records, cases):
